@@ -4,6 +4,7 @@
    SOURCE-DERIVED definitions of Gen/LeafRender.v / Gen/LeafFit.v. *)
 From RV Require Import Model.Base Model.RenderPrims Gen.Consts Gen.LeafFit Gen.LeafRender Model.Render.
 From RV Require Import Proofs.Render.
+From RV Require Import Gen.LeafFilterPos Model.FilterPos Proofs.FilterPos.
 Local Open Scope Z_scope.
 
 Theorem C13_floor_ceil_shift : forall x d,
@@ -108,3 +109,56 @@ Example C13_nv_clamped_differently :
   layer_ibbox (mk_qrect (-(400 # 1)) 0 (450 # 1) (10 # 1)) true (mk_irect (-200) (-200) 500 500) = Some (mk_irect (-200) (-2) 252 14) /\
   layer_ibbox (qshift 40 0 (mk_qrect (-(400 # 1)) 0 (450 # 1) (10 # 1))) true (mk_irect (-200) (-200) 500 500) = Some (mk_irect (-200) (-2) 292 14).
 Proof. split; vm_compute; reflexivity. Qed.
+
+(* ------------------------------------------------------------------ extension round 4: position-dependent primitives
+   turb_offset, turb_sample, point_light_xy, spot_light_xy, spot_points_at_xy, filter_canvas_draw_pos are the
+   SOURCE-DERIVED definitions of Gen/LeafFilterPos.v (filter/mod.rs apply_turbulence, transform_light_source,
+   apply_to_canvas; filter/turbulence.rs apply).  The layer frame of a filtered group moves by (ex, ey) between the two
+   renderings (Model/FilterPos.v): (0,0) when the layer follows its content, (dx,dy) when it is clamped to max_bbox. *)
+Local Open Scope Q_scope.
+Theorem C13_turbulence_offset_invariant : forall region t ex ey,
+  qpair_eq (turb_offset (ishift ex ey region) (ts_shift ex ey t)) (turb_offset region t).
+Proof. exact turb_offset_frame_invariant. Qed.
+Print Assumptions C13_turbulence_offset_invariant.
+
+Theorem C13_point_light_equivariant : forall lx ly region t ex ey,
+  qpair_eq (point_light_xy lx ly (ishift ex ey region) (ts_shift ex ey t)) (point_light_xy lx ly region t).
+Proof. exact point_light_frame_invariant. Qed.
+Print Assumptions C13_point_light_equivariant.
+
+(* feSpotLight: full strength since a831d94 (the mapping subtracted region.x() from the y coordinates before: the former
+   C13_spot_light_equivariant_refuted / C13_spot_light_error and the ex = ey guard are gone) *)
+Theorem C13_spot_light_equivariant : forall lx ly px py region t ex ey,
+  qpair_eq (spot_light_xy lx ly (ishift ex ey region) (ts_shift ex ey t)) (spot_light_xy lx ly region t) /\
+  qpair_eq (spot_points_at_xy px py (ishift ex ey region) (ts_shift ex ey t)) (spot_points_at_xy px py region t).
+Proof. exact spot_light_frame_invariant. Qed.
+Print Assumptions C13_spot_light_equivariant.
+
+(* feTurbulence end to end: which lattice point a device pixel shows.  The filter result is drawn at
+   filter_canvas_draw_pos = (0,0) of the layer although its pixel (0,0) stands for the region origin: *)
+Theorem C13_turbulence_phase_correct : forall px py ox oy region t sx sy, ~ sx == 0 -> ~ sy == 0 ->
+  ix region = 0%Z -> iy region = 0%Z ->
+  qpair_eq (turb_device_sample px py ox oy region t sx sy)
+           ((inject_Z px - (t_tx t + inject_Z ox)) / sx, (inject_Z py - (t_ty t + inject_Z oy)) / sy).
+Proof. exact turb_device_sample_correct. Qed.
+Print Assumptions C13_turbulence_phase_correct.
+(* guarded: the layer follows its content (not clamped) - the phase moves with the picture *)
+Theorem C13_turbulence_phase_equivariant : forall px py ox oy dx dy region t sx sy, ~ sx == 0 -> ~ sy == 0 ->
+  qpair_eq (turb_device_sample (px + dx) (py + dy) (ox + dx) (oy + dy) region t sx sy)
+           (turb_device_sample px py ox oy region t sx sy).
+Proof. exact turb_device_sample_equivariant_guarded. Qed.
+Print Assumptions C13_turbulence_phase_equivariant.
+(* full strength fails: with a clamped filter layer the phase slips by exactly (ex / sx, ey / sy) *)
+Theorem C13_turbulence_phase_shift : forall px py ox oy dx dy ex ey region t sx sy, ~ sx == 0 -> ~ sy == 0 ->
+  fst (turb_device_sample (px + dx) (py + dy) (ox + dx - ex) (oy + dy - ey) (ishift ex ey region) (ts_shift ex ey t) sx sy)
+    == fst (turb_device_sample px py ox oy region t sx sy) + inject_Z ex / sx /\
+  snd (turb_device_sample (px + dx) (py + dy) (ox + dx - ex) (oy + dy - ey) (ishift ex ey region) (ts_shift ex ey t) sx sy)
+    == snd (turb_device_sample px py ox oy region t sx sy) + inject_Z ey / sy.
+Proof. exact turb_device_sample_shift. Qed.
+Print Assumptions C13_turbulence_phase_shift.
+Theorem C13_turbulence_phase_equivariant_refuted : exists px py ox oy dx dy ex ey region t sx sy,
+  ~ sx == 0 /\ ~ sy == 0 /\
+  ~ qpair_eq (turb_device_sample (px + dx) (py + dy) (ox + dx - ex) (oy + dy - ey) (ishift ex ey region) (ts_shift ex ey t) sx sy)
+             (turb_device_sample px py ox oy region t sx sy).
+Proof. exact turb_device_sample_refuted. Qed.
+Print Assumptions C13_turbulence_phase_equivariant_refuted.
